@@ -207,12 +207,14 @@ package binary
 //@   ensures mono: old(p.Read) <= p.Read
 //@   ensures fail: err != nil ==> size == -1
 //@   ensures cnt: err == nil ==> size >= 0
+//@   ensures adv_packed: err == nil && ispacked ==> p.Read > old(p.Read)
+//@   ensures adv_unpacked: err == nil && !ispacked && old(p.Read) < len(p.Buf) && old(tagl(p)) > 0 && old(tagv(p)) >> 3 == uint64(fieldNumber) ==> p.Read > old(p.Read)
 //@   modifies p.Read
 //@   loop 1
-//@     invariant mono: old(p.Read) <= p.Read && 0 <= size && size <= p.Read - old(p.Read)
+//@     invariant mono: old(p.Read) < p.Read && 0 <= size && size <= p.Read - old(p.Read)
 //@     decreases len(p.Buf) - p.Read
 //@   loop 2
-//@     invariant mono: old(p.Read) <= p.Read && 0 <= size && size <= p.Read - old(p.Read)
+//@     invariant mono: old(p.Read) <= p.Read && 0 <= size && size <= p.Read - old(p.Read) && (size == 0 ==> p.Read == old(p.Read))
 //@     decreases len(p.Buf) - p.Read
 
 // ---- speculative length prefixes (C09, C10) ----------------------------------------------------------
